@@ -174,7 +174,16 @@ func runC03(t *testing.T, seed uint64, m *Mask) *Report {
 				panicBySeq[f.seq] = true
 			}
 		}
-		srv := e.NewPeer("srv", erpc.PeerConfig{}, rec, &c03Panicker{seqs: panicBySeq})
+		// half of the scripted plugin panics happen after the reply has been written (PostWriteReply) instead of
+		// before: the call has been answered, nothing more is owed
+		postPanic := map[int32]bool{}
+		for _, f := range frames {
+			if panicBySeq[f.seq] && e.Gen.Chance(0.5) {
+				postPanic[f.seq] = true
+				delete(panicBySeq, f.seq)
+			}
+		}
+		srv := e.NewPeer("srv", erpc.PeerConfig{}, rec, &c03Panicker{seqs: panicBySeq, post: postPanic})
 		rt := e.RegisterStd(srv)
 		weird, big := "/std/weird", "/std/big"
 		unknownN := 0
@@ -430,7 +439,16 @@ func runC03(t *testing.T, seed uint64, m *Mask) *Report {
 }
 
 // c03Panicker is a PreWriteReply plugin that panics for the replies of selected sequence numbers.
-type c03Panicker struct{ seqs map[int32]bool }
+type c03Panicker struct{ seqs, post map[int32]bool }
+
+func (p *c03Panicker) PostWriteReply(c erpc.WriteCtx) *erpc.Status {
+	if p.post[c.Output().Seq()] {
+		delete(p.post, c.Output().Seq())
+		var m map[string]int
+		m["audit"]++ // write to a nil map, as an accounting plugin that forgot to initialise it
+	}
+	return nil
+}
 
 func (p *c03Panicker) Name() string { return "panicker" }
 func (p *c03Panicker) PreWriteReply(c erpc.WriteCtx) *erpc.Status {
